@@ -245,6 +245,44 @@ theorem loop_partial_vs_onnx (carried : List Ty) :
       ∧ (loopPresc carried).take 2 = [.tensor dtInt64 (some []), .tensor dtBool (some [])] := by
   simp [loopPrescWith, loopPresc]
 
+/-- **Counterexample family for the full Loop statement** (pair of `args_prescribed_loop_partial`): in *every*
+    shipped module, for *every* list of carried values and every callable body, the argument types the
+    body receives differ from ONNX's prescription (iteration number / condition are `[1]`-shaped). -/
+theorem args_prescribed_loop_counterexample {m : String} {s : CtorSpec} (h : (m, "loop", s) ∈ table)
+    (env : Env) (carried : List Ty) (hl : env.lists "v_initial" = carried.map some)
+    (cbs : Callbacks) (hc : (cbs "body").2.callable = true) (w : World) :
+    (construct s env cbs w).2.events.head?.map (·.types) ≠ some (loopPresc carried) := by
+  rw [args_prescribed_loop_partial h env carried hl cbs hc w]
+  simp [loopPrescWith, loopPresc]
+
+/-- **Counterexample family for the full Scan statement** (pair of `args_prescribed_scan_partial`): in every
+    shipped module, one scan input of rank ≥ 2 whose first two dimensions differ, scanned along axis 1:
+    the body's argument type differs from ONNX's prescription (the code strips axis 0). -/
+theorem args_prescribed_scan_counterexample {m : String} {s : CtorSpec} (h : (m, "scan", s) ∈ table)
+    (env : Env) (dt : Nat) (d0 d1 : Dim) (rest : List Dim) (hd : d0 ≠ d1)
+    (hl : env.lists "initial_state_and_scan_inputs" = [some (.tensor dt (some (d0 :: d1 :: rest)))])
+    (hi : env.ints "num_scan_inputs" = 1)
+    (cbs : Callbacks) (hc : (cbs "body").2.callable = true) (w : World) :
+    (construct s env cbs w).2.events.head?.map (·.types)
+      ≠ some (scanPresc [⟨dt, some (d0 :: d1 :: rest)⟩] 1 (some [1])) := by
+  have hp := args_prescribed_scan_partial h env [⟨dt, some (d0 :: d1 :: rest)⟩] 1 (by simp)
+    (by simpa [TensorT.ty] using hl) (by simpa using hi) none (by intro l hl'; cases hl') cbs hc w
+  rw [hp]
+  simp [scanPresc, stripAxes, dropAxis, List.eraseIdx]
+  intro h'
+  exact hd h'.symm
+
+/-- **If does not look at its condition.** In every shipped module the two branch subgraphs are traced
+    from the callbacks alone: whatever the operands are — a condition known at construction time (constant,
+    computed from constants, initializer) included — the constructor call is the same; no branch is "dead"
+    for tracing. -/
+theorem if_cond_irrelevant {m : String} {s : CtorSpec} (h : (m, "if_", s) ∈ table)
+    (env env' : Env) (cbs : Callbacks) (w : World) :
+    construct s env cbs w = construct s env' cbs w := by
+  have hs := spec_of_table h
+  simp only [accepted, if_true, List.mem_cons, List.not_mem_nil, or_false] at hs
+  rcases hs with rfl | rfl <;> simp [construct, runSubgraphs, ifSpec, ifSpecSwapped, evalList]
+
 private def envOf (lists : List (String × List Operand)) (singles : List (String × Operand))
     (ints : List (String × Int)) : Env :=
   ⟨fun nm => ((lists.find? (·.1 == nm)).map (·.2)).getD [],
@@ -450,6 +488,25 @@ theorem types_arg_validated (ta : TypesArg) (cb : Nat) (beh : CbBehaviour) (w : 
           ∧ (subgraphEntry ta cb beh w).2.count cb = w.count cb) := by
   cases ta <;> simp [subgraphEntry]
 
+/-- The TypeError clause holds for the branch that can never execute as for any other: in every shipped
+    module, with every operand valuation, if each branch callback either returns Vars or is malformed and
+    one of them is malformed, `if_` raises TypeError. -/
+theorem if_dead_branch_typeerror {m : String} {s : CtorSpec} (h : (m, "if_", s) ∈ table)
+    (env : Env) (cbs : Callbacks) (w : World)
+    (hgb : ∀ nm, nm = "else_branch" ∨ nm = "then_branch" → (cbs nm).2.good = true ∨ (cbs nm).2.bad = true)
+    (hex : (cbs "else_branch").2.bad = true ∨ (cbs "then_branch").2.bad = true) :
+    (construct s env cbs w).1 = .error .typeError := by
+  have hs := spec_of_table h
+  simp only [accepted, if_true, List.mem_cons, List.not_mem_nil, or_false] at hs
+  rcases hs with rfl | rfl
+  all_goals
+    apply bad_callbacks_typeerror
+    · intro p hp; simp [ifSpec, ifSpecSwapped] at hp; rcases hp with rfl | rfl <;> exact ⟨[], rfl⟩
+    · intro p hp; simp [ifSpec, ifSpecSwapped] at hp; rcases hp with rfl | rfl <;> exact hgb _ (by simp)
+    · rcases hex with hb | hb
+      · exact ⟨("else_branch", .empty), by simp [ifSpec, ifSpecSwapped], hb⟩
+      · exact ⟨("then_branch", .empty), by simp [ifSpec, ifSpecSwapped], hb⟩
+
 /-! ## Callable forms
 
 `subgraph` calls `fun(*ins)` with exactly the prescribed arguments; what Python's call accepts must be
@@ -614,6 +671,31 @@ theorem nested_extends_flat (spec : CtorSpec) (env : Env) (cbs : Callbacks) (w w
       rw [← h.2]
       exact runSubgraphs_forest env cbs _ _ _ _ hrs
 
+/-- **Failing nested calls.** Callbacks of any behaviour at any depth (`runForestE`: a failure anywhere
+    propagates out of every enclosing body and stops what would have followed): no callback is invoked more
+    often than it occurs in the tree — whether or not the outermost call fails. -/
+theorem nested_failing_at_most_once (ts : List TreeE) (w : World) (c : Nat) :
+    (runForestE ts w).2.count c ≤ w.count c + (idsFE ts).count c :=
+  runForestE_count_le ts w c
+
+/-- **Refinement.** If the nested call does not fail, it is exactly the successful model (`runForest`) on the
+    tree with the behaviours erased — so `nested_args_prescribed`, `nested_called_once`, … apply to it. -/
+theorem nested_ok_refines (ts : List TreeE) (w : World) (h : (runForestE ts w).1 = none) :
+    (runForestE ts w).2 = runForest (eraseF ts) w :=
+  runForestE_ok ts w h
+
+/-- Non-vacuity: a Loop body (callback 0) calling an If whose `else_branch` (1) returns a non-iterable: the
+    outermost call is a TypeError, body and else-branch were entered once, `then_branch` (2) never; with a
+    well-formed else-branch the call succeeds and all three were entered once. -/
+example :
+    let t (b : CbBehaviour) : TreeE := .node 0 [(f32 []).ty] (.returnsVars 2) [.node 1 [] b [], .node 2 [] (.returnsVars 1) []]
+    (runForestE [t .nonIterable] ⟨[], 0⟩).1 = some .typeError
+      ∧ ((runForestE [t .nonIterable] ⟨[], 0⟩).2.count 0, (runForestE [t .nonIterable] ⟨[], 0⟩).2.count 1,
+          (runForestE [t .nonIterable] ⟨[], 0⟩).2.count 2) = (1, 1, 0)
+      ∧ (runForestE [t (.returnsVars 1)] ⟨[], 0⟩).1 = none
+      ∧ (runForestE [t (.returnsVars 1)] ⟨[], 0⟩).2.count 2 = 1 := by
+  decide
+
 /-- Non-vacuity: a Loop body (callback 0, 3 arguments) containing an If (callbacks 1, 2) whose
     else-branch contains a Scan (callback 3, 2 arguments): four events, depth first, consecutive ids. -/
 example :
@@ -660,6 +742,28 @@ example :
     let cbs : Callbacks := fun _ => (0, .nonIterable)
     let r := construct v17_loop (envOf [("v_initial", [])] [] []) cbs ⟨[], 0⟩
     r.1.toOption.isNone ∧ r.2.count 0 = 1 := by
+  decide
+
+/-- The hypotheses of `args_prescribed_loop_counterexample` / `args_prescribed_scan_counterexample` are
+    satisfiable on the generated specs, and the observed types are the ones the known findings name. -/
+example :
+    let cbs : Callbacks := fun _ => (0, .returnsVars 2)
+    (construct v21_loop (envOf [("v_initial", [some (f32 [2]).ty])] [] []) cbs ⟨[], 0⟩).2.events.head?.map (·.types)
+        = some [.tensor 7 (some [.n 1]), .tensor 9 (some [.n 1]), (f32 [2]).ty]
+      ∧ loopPresc [(f32 [2]).ty] = [.tensor 7 (some []), .tensor 9 (some []), (f32 [2]).ty]
+      ∧ (construct v17_scan (envOf [("initial_state_and_scan_inputs", [some (f32 [5, 3]).ty])] []
+            [("num_scan_inputs", 1)]) cbs ⟨[], 0⟩).2.events.head?.map (·.types) = some [(f32 [3]).ty]
+      ∧ scanPresc [f32 [5, 3]] 1 (some [1]) = [(f32 [5]).ty] := by
+  decide
+
+/-- `if_dead_branch_typeerror` / `if_cond_irrelevant`: a non-callable `else_branch` is a TypeError whatever the
+    operands; with two good branches both are traced (2 events) for two different operand valuations alike. -/
+example :
+    let bad : Callbacks := fun nm => if nm = "else_branch" then (0, .notCallable) else (1, .returnsVars 1)
+    let good : Callbacks := fun nm => if nm = "else_branch" then (0, .returnsVars 1) else (1, .returnsVars 1)
+    (construct v19_if_ (envOf [] [] []) bad ⟨[], 0⟩).1.toOption.isNone
+      ∧ (construct v19_if_ (envOf [] [] []) good ⟨[], 0⟩).2.events.length = 2
+      ∧ (construct v19_if_ (envOf [("x", [none])] [] [("k", 3)]) good ⟨[], 0⟩).2.events.length = 2 := by
   decide
 
 end C19
